@@ -30,7 +30,34 @@ TEMPLATES = [
     "def {n}(x):\n    try:\n        return {a}(x)\n    except (NameError, AttributeError, TypeError):\n        return -{k}",
     "def {n}(x): return {r}(x) + {k}",          # {r}: a reference holding a cells
     "def {n}(x): return {c}[{k}].{a}(x) + 1",   # through an ItemSpace of a parametrised child
+    # -- extended vocabulary (only generated / enumerated by the properties that ask for it: `ext`)
+    "def {n}(x): return {a}(x) + {c}.{r}",      # calls a cells AND reads a reference by attribute path
+    "def {n}(x): return {a}(x) + {r}",          # calls a cells AND reads a reference by name
 ]
+N_BASE_TEMPLATES = 11
+
+# formulas of parametrised spaces (`set_param path [i, r, c, a]`; `set_param path 1` is SPACE_TEMPLATES[1]).
+# Every ItemSpace gets a reference `s` computed by the space formula, so that the cells of the space
+# (and whatever calls them from elsewhere) depend on what the SPACE formula read.
+SPACE_TEMPLATES = [
+    None,
+    "lambda i: None",
+    "lambda i: {{'refs': {{'s': _space.parent.{r} * 10 + i}}}}",   # the parent's reference, by attribute path
+    "lambda i: {{'refs': {{'s': {r} * 10 + i}}}}",                 # a reference of the namespace, by name
+    "lambda i: {{'refs': {{'s': {c}.{r} * 10 + i}}}}",             # a reference of another space, by attribute path
+    "lambda i: {{'refs': {{'s': {a}(i) * 10}}}}",                  # a cells of the space itself
+    "lambda i: {{'refs': {{'s': _space.{r} * 10 + i}}}}",          # the space's own reference, by attribute path
+]
+
+
+def space_formula_src(v):
+    """0 / None -> no formula; 1 -> the constant formula; [i, r, c, a] -> SPACE_TEMPLATES[i]"""
+    if not v:
+        return None
+    if v == 1:
+        return SPACE_TEMPLATES[1]
+    i, r, c, a = v
+    return SPACE_TEMPLATES[i].format(r=r, c=c, a=a)
 
 
 def formula_src(name, t):
@@ -39,13 +66,16 @@ def formula_src(name, t):
     return TEMPLATES[i].format(n=name, k=k, a=a, r=r, c=c)
 
 
-NEEDS = [set(), {"a"}, {"r"}, {"c", "cr"}, {"c", "ca"}, {"a"}, {"r"}, {"u"}, {"a"}, {"ro"}, {"ci"}]
+NEEDS = [set(), {"a"}, {"r"}, {"c", "cr"}, {"c", "ca"}, {"a"}, {"r"}, {"u"}, {"a"}, {"ro"}, {"ci"},
+         {"a", "c", "cr"}, {"a", "r"}]
 
 
-def gen_formula(rng, spaces, space=None):
-    """mostly names that resolve in `space` (a live UserSpace), sometimes arbitrary ones"""
+def gen_formula(rng, spaces, space=None, ext=False):
+    """mostly names that resolve in `space` (a live UserSpace), sometimes arbitrary ones;
+    ext: the extended templates too (the draws of the other properties do not move)"""
+    n_templates = len(TEMPLATES) if ext else N_BASE_TEMPLATES
     if space is None or rng.random() < 0.12:
-        return (rng.randrange(len(TEMPLATES)), rng.randint(1, 5), rng.choice(CELLS), rng.choice(REFS), rng.choice(CHILD))
+        return (rng.randrange(n_templates), rng.randint(1, 5), rng.choice(CELLS), rng.choice(REFS), rng.choice(CHILD))
     cells = list(space.cells)
     refs = [r for r in space.refs if not r.startswith("_")]
     childs = [c for c in space.spaces]
@@ -70,12 +100,12 @@ def gen_formula(rng, spaces, space=None):
         have |= {"c", "cr"}
     if ch_cells:
         have |= {"c", "ca"}
-    ok = [i for i in range(len(TEMPLATES)) if NEEDS[i] <= have]
+    ok = [i for i in range(n_templates) if NEEDS[i] <= have]
     i = rng.choice(ok)
     a = rng.choice(cells) if cells else rng.choice(CELLS)
     r = rng.choice(refs) if refs else rng.choice(REFS)
     c = rng.choice(childs) if childs else rng.choice(CHILD)
-    if i == 3:
+    if i in (3, 11):
         c, r = rng.choice(ch_ref)
     if i == 4:
         c, a = rng.choice(ch_cells)
@@ -201,7 +231,7 @@ class Live:
             self.space(op[1]).new_cells(op[2], formula=op[3])
             return "ok"
         if k == "set_param":
-            self.space(op[1]).formula = "lambda i: None" if op[2] else None
+            self.space(op[1]).formula = space_formula_src(op[2])
             return "ok"
         if k == "eval_item":
             v = self.space(op[1])[op[2]].cells[op[3]](op[4])
